@@ -41,7 +41,9 @@ func (s *server) Select(selectorContext *Context) (string, error) {
 		}
 	}
 	if serverId == "" {
-		panic("unexpected behaviour")
+		// No selector could pick a server: there is no candidate left (e.g. the replication factor
+		// exceeds the number of eligible servers). Refuse the selection instead of crashing the coordinator.
+		return "", selectors.ErrUnsatisfiedEnsembleReplicas
 	}
 	return serverId, nil
 }
